@@ -89,6 +89,7 @@ write data;
 type lexer struct {
 	data string
 	p, pe, m int
+	depth int
 	id string
 }
 
